@@ -108,8 +108,9 @@ func NewMultiEndpoint(b *MultiEndpointOptions) (MultiEndpoint, error) {
 	}
 
 	me := &multiEndpoint{
-		recoveryTimeout: b.RecoveryTimeout,
-		switchingDelay:  b.SwitchingDelay,
+		// A negative duration means "none", as a zero one does.
+		recoveryTimeout: nonNegative(b.RecoveryTimeout),
+		switchingDelay:  nonNegative(b.SwitchingDelay),
 		current:         b.Endpoints[0],
 	}
 	// Recovery timers scheduled by newEndpoint may fire before the constructor is done.
@@ -121,6 +122,13 @@ func NewMultiEndpoint(b *MultiEndpointOptions) (MultiEndpoint, error) {
 	}
 	me.endpoints = eMap
 	return me, nil
+}
+
+func nonNegative(d time.Duration) time.Duration {
+	if d < 0 {
+		return 0
+	}
+	return d
 }
 
 // uniqueEndpoints returns the list without repeated entries: an endpoint listed more
